@@ -386,6 +386,30 @@ C17_PayAddrChange(x, cfg) ==
     /\ \A i \in 1..Len(x.post.pay) : LET p == x.post.pay[i] IN
           (~HasPay(x.pre, p.did) /\ IsKeyDid(cfg, p.did)) => Kind(x) = "PayAddr" /\ Ok(x) /\ x.ev.creator = p.a /\ x.ev.did = p.did
 
+\* C19: fault reports
+FaultKinds == {"ReportFaults", "RecoverFaults"}
+ChangedFaults(x) == {f \in Rng(x.pre.faults) \cup Rng(x.post.faults) : ~(f \in Rng(x.pre.faults) /\ f \in Rng(x.post.faults))}
+C19_app(x) == Rng(x.pre.faults) # Rng(x.post.faults) \/ Rng(x.pre.faultIdx) # Rng(x.post.faultIdx)
+C19_OnlyFishmen(x, cfg) ==
+    /\ Ok(x) /\ Kind(x) \in FaultKinds /\ HasNode(x.pre, x.ev.creator)
+    /\ \/ InSeq(x.ev.creator, cfg.fishmen)
+       \/ (Kind(x) = "RecoverFaults" /\ x.ev.creator = x.ev.provider /\ \A f \in ChangedFaults(x) : f.provider = x.ev.creator)
+    /\ \A f \in ChangedFaults(x) : f.provider = x.ev.provider
+C19_FaultNamesLiveShard(x) ==
+    \A f \in Rng(x.post.faults) : ~Has(x.pre.faults, "id", f.id) =>
+        /\ HasShard(x.pre, f.shard) /\ ShardOf(x.pre, f.shard).sp = f.provider /\ ShardEnd(ShardOf(x.pre, f.shard)) > x.pre.h
+        /\ HasOrder(x.pre, f.order) /\ InSeq(f.shard, OrderOf(x.pre, f.order).shards) /\ OrderOf(x.pre, f.order).data = f.data
+        /\ HasMeta(x.pre, f.data)
+C19_NoCollateralEffect(x) ==
+    /\ x.post.bal = x.pre.bal /\ x.post.orders = x.pre.orders /\ x.post.shards = x.pre.shards /\ x.post.metas = x.pre.metas
+    /\ x.post.nodes = x.pre.nodes /\ x.post.workers = x.pre.workers /\ x.post.pdebts = x.pre.pdebts /\ x.post.pool = x.pre.pool
+    /\ Del(x.post.pledges, "a", x.ev.provider) = Del(x.pre.pledges, "a", x.ev.provider)
+C19_PenaltyBounded(x) ==
+    HasPledge(x.pre, x.ev.provider) =>
+        /\ HasPledge(x.post, x.ev.provider)
+        /\ LET p == PledgeOf(x.pre, x.ev.provider)  q == PledgeOf(x.post, x.ev.provider) IN
+             /\ q.rew <= p.rew /\ q.rew >= 0 /\ q.capPl <= p.capPl /\ q.capPl >= 0 /\ q.shPl = p.shPl /\ q.cap = p.cap /\ q.used = p.used
+
 \* C20: the super role is held only while its requirements hold (status loss by offline detection is not a listed trigger)
 SharesOf(s, d, v) == LET r == SelectSeq(s.delegs, LAMBDA x : x.d = d /\ x.v = v) IN IF r = <<>> THEN 0 ELSE r[1].shares
 SuperOk(s, cfg, n) ==
